@@ -17,8 +17,11 @@ HARNESS = ['root_intrinsics.go', 'root_element.go', 'root_map.go', 'root_hash.go
 SUMM = kernel_summaries('scalar', 's')
 
 
-def check_one(ck, r, m, d, failures):
-    tag = 'C09.m%d.d%d' % (m, d)
+from props.C08 import byte_names
+
+
+def check_one(ck, r, m, d, failures, lay=0):
+    tag = 'C09.m%d.d%d' % (m, d) + ('.layout%d' % lay if lay else '')
     ok = len(r.paths) == 1 and r.paths[0]['end'] == 'return'
     if not ck.ground(tag + '.shape', 'single returning path', ok, str([(p['end'], p.get('panic') or p.get('err')) for p in r.paths][:2])):
         failures.append(tag)
@@ -30,8 +33,9 @@ def check_one(ck, r, m, d, failures):
     mu = MontUF(low, 's')
     fa, _ = low.declare_uf('sadd', [BV256, BV256], BV256)
     fm, _ = low.declare_uf('smul', [BV256, BV256], BV256)
-    mn, _ = ensure_vars(r, low, ['msg_%d' % i for i in range(m)], 8)
-    dn, _ = ensure_vars(r, low, ['dst_%d' % i for i in range(d)], 8)
+    mnames, dnames = byte_names(m, d, lay)
+    mn, _ = ensure_vars(r, low, mnames, 8)
+    dn, _ = ensure_vars(r, low, dnames, 8)
     ub = expand_message_xmd(low, mn, dn, 48)
     A = '((_ zero_extend 64) %s)' % concat_bytes_be(ub[24:])
     Bt = '((_ zero_extend 64) %s)' % concat_bytes_be(ub[:24])
@@ -42,7 +46,7 @@ def check_one(ck, r, m, d, failures):
     if ans[0] != 'unsat':
         failures.append(tag + '.value')
     inputs = {n['n'].rsplit('_', 1)[0] for n in r.nodes if n['op'] == 'var'}
-    if not ck.ground(tag + '.pure', 'depends on msg and DST bytes only; fresh scalar returned; arguments not written', inputs <= {'msg', 'dst'} and bool(o['sfresh'].get('fresh')) and not p['writes'], str(p['writes'][:1])):
+    if not ck.ground(tag + '.pure', 'depends on msg and DST bytes only; fresh scalar returned; arguments not written', inputs <= {'msg', 'dst', 'msgbuf', 'dstbuf', 'frame'} and bool(o['sfresh'].get('fresh')) and not p['writes'], str(p['writes'][:1])):
         failures.append(tag + '.pure')
 
 
@@ -55,6 +59,8 @@ def run(tier, seed):
         ms, ds = [0, 1, 2, 3, 4, 5, 6, 7, 8, 55, 56, 63, 64, 65, 128, 512], list(range(1, 301))
         combos = [(m, d) for d in ds for m in ((0, 3, 64) if d not in (1, 16, 255, 256, 300) else ms)]
     jobs = [{'id': 'h_%d_%d' % (m, d), 'harness': 'vh_hash', 'args': [2, m, d, 0], 'summaries': SUMM} for (m, d) in combos]
+    from props.C08 import LAYCOMBOS
+    jobs += [{'id': 'h_%d_%d_L%d' % (m, d, lay), 'harness': 'vh_hash', 'args': [2, m, d, lay], 'summaries': SUMM} for lay in (1, 2, 3, 4) for (m, d) in LAYCOMBOS]
     jobs += [{'id': 'nodst%d' % i, 'harness': 'vh_hash_nodst', 'args': [2, 3, i], 'summaries': SUMM} for i in (0, 1)]
     runs = ck.absorb(core.symx_parallel(HARNESS, jobs, chunks=12))
     ck.extra['_runs'] = runs
@@ -69,6 +75,9 @@ def run(tier, seed):
     failures = []
     with core.ThreadPoolExecutor(max_workers=4) as ex:
         list(ex.map(lambda c: check_one(ck, R_['h_%d_%d' % c], c[0], c[1], failures), combos))
+    for lay in (1, 2, 3, 4):
+        for (m, d) in LAYCOMBOS:
+            check_one(ck, R_['h_%d_%d_L%d' % (m, d, lay)], m, d, failures, lay)
     # OS2IP split lemma
     ck.prove('C09.split', 'OS2IP(48 bytes) = a + b*2^192', '(declare-const a (_ BitVec 192))(declare-const b (_ BitVec 192))\n(assert (not (= (concat b a) (bvadd ((_ zero_extend 192) a) (bvshl ((_ zero_extend 192) b) (_ bv192 384))))))', timeout=30)
     for i in (0, 1):
@@ -80,6 +89,7 @@ def run(tier, seed):
         import random
         rng = random.Random(ck.seed + 13)
         cases = [{'kind': 'h2s', 'a': ''.join('%02x' % rng.getrandbits(8) for _ in range(m)), 'b': ''.join('%02x' % rng.getrandbits(8) for _ in range(d))} for (m, d) in sorted(set(combos))[:80]]
+        cases += [{'kind': 'h2-layout', 'op': 'S', 'n': lay, 'a': ''.join('%02x' % rng.getrandbits(8) for _ in range(m)), 'b': ''.join('%02x' % rng.getrandbits(8) for _ in range(d))} for lay in (1, 2, 3, 4) for (m, d) in LAYCOMBOS]
         cases += [{'kind': 'h2-panic', 'a': 'aa', 'b': '', 'n': 0}, {'kind': 'h2-panic', 'a': 'aa', 'b': '', 'n': 1}]
         cases += [{'kind': 'xmd', 'a': 'ab' * m, 'b': 'cd' * d, 'n': 48} for (m, d) in [(0, 1), (3, 16), (64, 255), (64, 256), (5, 300)]]
         path = ck.save_replay({'property': 'C09', 'cases': cases, 'failed': failures[:10]})
